@@ -35,6 +35,7 @@ abbrev Tid := Nat
 inductive Op where
   | append (s : Shard) (us : List Upd)
   | flush (s : Shard)
+  | compactOnly (s : Shard)          -- second half of `compact(s, 0)`: see `expandCompact`
   deriving Repr, DecidableEq, Inhabited
 
 structure ShardSt where
@@ -107,6 +108,23 @@ def flushEnter (cfg : Cfg) (st : State) (t : Tid) (th : Thread) (s : Shard) : St
 def opShard : Op → Shard
   | .append s _ => s
   | .flush s => s
+  | .compactOnly s => s
+
+/-- An update id stands for (tuple, time, diff): ids below 1000 are inserts of the tuple `id` at time `id`,
+    ids from 1000 are deletes of the tuple `id - 1000` at time `id`. -/
+def tupleOf (u : Upd) : Nat := if u ≥ 1000 then u - 1000 else u
+def diffOf (u : Upd) : Int := if u ≥ 1000 then -1 else 1
+
+/-- `consolidate` (consolidate.rs:32) on updates with pairwise distinct times: sort by (data, time) -/
+def compactList (l : List Upd) : List Upd :=
+  sortBy (fun a b => decide (tupleOf a < tupleOf b ∨ (tupleOf a = tupleOf b ∧ a ≤ b))) l
+
+/-- `compact(s, 0)` (mod.rs:519) = `flush(s)` ; -- yield "persist.compact.after_flush" -- ;
+    ⟨shards.write(): read every batch, consolidate, write one batch, save meta, unlink the old files⟩.
+    In programs it is written as the two operations `flush s` ; `compactOnly s` (the thread does not
+    return in between: the boundary is the yield point). Shards that are compacted exist (the harness
+    ensures them up front), so the flush half cannot fail. -/
+def expandCompact (s : Shard) : List Op := [.flush s, .compactOnly s]
 
 /-- one atomic step of thread `t`. -/
 def step (cfg : Cfg) (st : State) (t : Tid) : Res :=
@@ -135,6 +153,14 @@ def step (cfg : Cfg) (st : State) (t : Tid) : Res :=
       | .flushHold, op =>
         .ok { st with wal := walRemove st.wal (opShard op), lock := none,
                       threads := setThread st.threads t (th.finish true) }
+      | .start, .compactOnly s =>
+        if st.lock.isSome then .blocked else
+        let sh := st.shards s
+        if !sh.present then .ok { st with threads := setThread st.threads t (th.finish false) }
+        else
+          let all := sh.batches.flatten
+          let sh' : ShardSt := { sh with batches := if all.isEmpty then [] else [compactList all] }
+          .ok { st with shards := setShard st.shards s sh', threads := setThread st.threads t (th.finish true) }
       -- unreachable pc/op combinations: the thread is stuck
       | _, _ => .skip
 
